@@ -62,6 +62,8 @@ class HeapMonitor:
         self.events = []          # ('a', size, loc) / ('f', loc)
         self.states = track_states
         self.whitebox = True
+        self.live_sum = 0
+        self.nev = 0
         self.stats = dict(allocs=0, frees=0, splits=0, exact_fits=0, appends=0, merges_one=0, merges_both=0, no_merge=0, tail_trims=0, tail_trims_cascade=0,
                           b_append=0, b_reuse_exact=0, b_reuse_split=0, b_free_merge0=0, b_free_merge1=0, b_free_merge2=0, b_free_top=0, b_free_top_cascade=0,
                           b_gap_rule_checks=0, whitebox_unavailable=0)
@@ -76,19 +78,43 @@ class HeapMonitor:
             self.stats['whitebox_unavailable'] += 1
             return default
 
-    def _gaps(self):
-        """free gaps below the highest live region: list of (start, stop); and the end of the highest live region"""
-        gaps, pos = [], 0
+    # -- shadow geometry (all O(log n) except the explicit gap scan) --------------------------------
+    def _top(self):
+        if not self.live_starts:
+            return 0
+        st = self.live_starts[-1]
+        return st + self.live[st]
+
+    def _neighbours(self, loc, size):
+        """(end of the live region below, start of the live region above or None) around [loc, loc+size)"""
+        i = bisect.bisect_left(self.live_starts, loc)
+        below = 0
+        if i > 0:
+            p = self.live_starts[i - 1]
+            below = p + self.live[p]
+        j = i
+        if j < len(self.live_starts) and self.live_starts[j] == loc:
+            j += 1
+        above = self.live_starts[j] if j < len(self.live_starts) else None
+        return below, above
+
+    def _fitting_gap(self, size):
+        pos = 0
         for st in self.live_starts:
-            if st > pos:
-                gaps.append((pos, st))
+            if st - pos >= size:
+                return (pos, st)
             pos = max(pos, st + self.live[st])
-        return gaps, pos
+        return None
+
+    def _sampled(self):
+        """large heaps (thousands of regions, e.g. the shipped b15 netlist): the O(n) walks run on every 128th event and at the end"""
+        self.nev += 1
+        return len(self.live) <= 1500 or self.nev % 128 == 0
 
     def alloc(self, size):
         h = self.h
         before = self._wb(lambda: (len(h.chunks), h.current_size, len(h.released)))
-        gaps, top = self._gaps()
+        top = self._top()
         loc = h.alloc_orig(size)
         self.events.append(('a', int(size), int(loc)))
         self.stats['allocs'] += 1
@@ -103,35 +129,39 @@ class HeapMonitor:
         loc = int(loc)
         size = int(size)
         # overlap with a live region?
-        i = bisect.bisect_right(self.live_starts, loc)
-        if i > 0:
-            p = self.live_starts[i - 1]
-            if p + self.live[p] > loc:
-                self.report('allocator-overlap', f'alloc({size}) returned {loc}, inside the live region [{p},{p + self.live[p]})')
-        if i < len(self.live_starts) and self.live_starts[i] < loc + size:
-            q = self.live_starts[i]
-            self.report('allocator-overlap', f'alloc({size}) returned [{loc},{loc + size}), overlapping the live region starting at {q}')
+        below, above = self._neighbours(loc, size)
+        if below > loc:
+            self.report('allocator-overlap', f'alloc({size}) returned {loc}, inside a live region that ends at {below}')
+        if above is not None and above < loc + size:
+            self.report('allocator-overlap', f'alloc({size}) returned [{loc},{loc + size}), overlapping the live region starting at {above}')
+        if loc in self.live:
+            self.report('allocator-overlap', f'alloc({size}) returned {loc}, the start of a live region')
         if loc < 0:
             self.report('allocator-overlap', f'alloc({size}) returned the negative location {loc}')
-        # coalescing as the client sees it
-        fit = [g for g in gaps if g[1] - g[0] >= size]
-        if fit:
+        # coalescing as the client sees it: the request extends the memory although a large enough contiguous free gap lies below
+        sampled = self._sampled()
+        if loc + size > top:
+            if top - self.live_sum >= size and sampled:
+                self.stats['b_gap_rule_checks'] += 1
+                g = self._fitting_gap(size)
+                if g is not None:
+                    self.report('allocator-coalescing', f'alloc({size}) returned [{loc},{loc + size}) beyond the highest live region (ends at {top}) although the '
+                                f'contiguous free gap [{g[0]},{g[1]}) below it is large enough: its parts were not merged')
+        else:
             self.stats['b_gap_rule_checks'] += 1
-            if loc + size > top:
-                self.report('allocator-coalescing', f'alloc({size}) returned [{loc},{loc + size}) beyond the highest live region (ends at {top}) although the contiguous '
-                            f'free gap [{fit[0][0]},{fit[0][1]}) below it is large enough: its parts were not merged')
-        inside = [g for g in gaps if g[0] <= loc and loc + size <= g[1]]
-        if inside:
-            self.stats['b_reuse_exact' if inside[0][1] - inside[0][0] == size else 'b_reuse_split'] += 1
-        elif loc >= top:
+        if loc >= top:
             self.stats['b_append'] += 1
+        elif loc + size <= top and below <= loc and (above is None or above >= loc + size):
+            gap_hi = above if above is not None else top
+            self.stats['b_reuse_exact' if gap_hi - below == size else 'b_reuse_split'] += 1
         got = self._wb(lambda: h.chunks.get(loc))
         if self.whitebox and got != size:
             self.report('allocator-state', f'alloc({size}) returned {loc} but the chunk table records size {got}')
         self.live[loc] = size
+        self.live_sum += size
         bisect.insort(self.live_starts, loc)
         self.max_end = max(self.max_end, loc + size)
-        self._after()
+        self._after(sampled)
         return loc
 
     def free(self, loc):
@@ -143,16 +173,15 @@ class HeapMonitor:
             self.events.append(('f!', loc))
             return
         before = self._wb(lambda: (len(h.released), h.current_size))
-        gaps, top = self._gaps()
         size = self.live[loc]
-        below = any(g[1] == loc for g in gaps)
-        above = any(g[0] == loc + size for g in gaps)
-        if loc + size == top:
+        below_end, above = self._neighbours(loc, size)
+        gap_below = below_end < loc
+        if above is None:
             self.stats['b_free_top'] += 1
-            if below:
+            if gap_below:
                 self.stats['b_free_top_cascade'] += 1
         else:
-            self.stats[f'b_free_merge{int(below) + int(above)}'] += 1
+            self.stats[f'b_free_merge{int(gap_below) + int(above > loc + size)}'] += 1
         h.free_orig(loc)
         self.events.append(('f', loc))
         self.stats['frees'] += 1
@@ -170,10 +199,15 @@ class HeapMonitor:
             else:
                 self.stats['no_merge'] += 1
         del self.live[loc]
-        self.live_starts.remove(loc)
-        self._after()
+        self.live_sum -= size
+        self.live_starts.pop(bisect.bisect_left(self.live_starts, loc))
+        self._after(self._sampled())
 
-    def _after(self):
+    def final_check(self):
+        """the O(n) walks once more at a quiescent point (end of a history / of the SimOps constructor)"""
+        self._after(True)
+
+    def _after(self, full=True):
         h = self.h
         if h.max_size < self.max_end:
             self.report('allocator-highwater', f'max_size is {h.max_size} but a region ending at {self.max_end} was handed out')
@@ -182,6 +216,8 @@ class HeapMonitor:
             self.high = max(self.high, cur)
             if h.max_size != self.high:
                 self.report('allocator-highwater', f'max_size is {h.max_size} but the managed range reached {self.high}')
+        if not full:
+            return
         for b in self._wb(lambda: inv_heap(h), []):
             self.report('allocator-invariant', b)
         used = self._wb(lambda: {s: z for s, z in h.chunks.items() if s not in set(h.released)})
